@@ -29,3 +29,219 @@ REGISTRY = {
     "C15": directive("C15"),
     "C18": directive("C18"),
 }
+
+
+# ------------------------------------------------------------------ generator-level properties
+import os, json, re, subprocess, shutil, random
+import render
+from vlib import Inconclusive, GOENV
+
+GRULE = ("programs: seeded random well-formed Flow/Parallel programs rendered into multi-file packages with varying "
+         "import aliases (cff, context, a user package named time/debug/multierr), build-constraint spellings and "
+         "surrounding declarations; the cff binary is rebuilt from /repo and run on every package in the listed modes")
+
+
+def c13(c):
+    """Output parses, type-checks without the cff tag, no directive left; the tool never panics."""
+    cff = c.build_cff()
+    tool = c.build_go("./cmd/gendiff", "gendiff", tags="")
+    rounds = 1 if c.quick else 4
+    n = 0
+    for r in range(rounds):
+        root, pk, jobs = G.make_corpus(c, 120 if c.quick else 300, 80 if c.quick else 200, 0, seed_off=100 + r)
+        for mode, extra in (("base", ()), ("source-map", ()), ("base", ("-auto-instrument",)), ("source-map", ("-auto-instrument",))):
+            c.log("cff %s %s" % (mode, " ".join(extra)))
+            problems = G.generate(c, cff, root, pk, mode, extra)
+            for pkg, kind, text in problems:
+                if kind == "crash":
+                    c.violation("C13", "cff died with a Go panic (%s %s) on package %s:\n%s" % (mode, extra, pkg, text[-1500:]),
+                                dict(kind="gen-corpus", seed_off=100 + r, mode=mode, extra=list(extra)))
+                else:
+                    c.violation("C14", "cff rejected well-formed programs (%s):\n%s" % (pkg, text[-800:]), dict(kind="gen-corpus", seed_off=100 + r))
+                    c.inconclusive.append("corpus rejected by cff: " + text[-300:])
+            if problems:
+                continue
+            ok, err = G.typecheck(c, root)
+            if not ok:
+                c.violation("C13", "generated package does not type-check without the cff tag (%s %s):\n%s" % (mode, " ".join(extra), err[-1500:]),
+                            dict(kind="gen-corpus", seed_off=100 + r, mode=mode, extra=list(extra)))
+            for pkg in pk:
+                for f in G.gendiff(c, tool, root, pkg):
+                    if f["prop"] == "C13":
+                        c.violation("C13", "%s: %s (%s)" % (f["src"], f["what"], mode), dict(kind="gen-corpus", seed_off=100 + r, mode=mode, file=f["src"]))
+            n += sum(len(v) for v in pk.values())
+            c.cov["evaluations"] += sum(len(v) for v in pk.values())
+        if len(c.cov["samples"]) < 2:
+            p = next(iter(pk.values()))[0]
+            c.cov["samples"].append(dict(program={k: v for k, v in p.items() if k != "style"}, style=p["style"]))
+    c.cov["programs"] = n
+    c.cov["disagreements_checked"] = n
+    c.cov["distinct_nontrivial"] = n
+    c.assumptions += ["'type-checks' is decided by the Go type checker (go build without the cff tag)",
+                      "inputs are the renderer's feature space, not all Go programs"]
+    return c.finish("exploration", GRULE + "; one evaluation = one program in one mode; non-trivial = every program (each has "
+                    "at least one task and distinct structure by construction of the seeded generator)", distinct_nontrivial=n)
+
+
+def bt_exprs(c, leaves):
+    cfg = ("CONSTANTS MaxLeaves = %d  DUMP = TRUE\nSPECIFICATION Spec\nINVARIANTS FlipCorrect NoDoubleNegation Dump\n"
+           "CHECK_DEADLOCK FALSE\n" % leaves)
+    r = c.tlc("BuildTag", cfg, "buildtag%d" % leaves, workers=1, timeout=3000)
+    path = os.path.join(c.scratch, "exprs%d.tsv" % leaves)
+    n = 0
+    with open(path, "w") as f:
+        for l in r["output"].splitlines():
+            m = re.match(r'^<<"EXPR", "(.*)", "(.*)">>$', l)
+            if m:
+                f.write("%s\t%s\n" % (m.group(1), m.group(2)))
+                n += 1
+    if n == 0:
+        raise Inconclusive("BuildTag.tla printed no expressions")
+    return path, n
+
+
+def c16(c):
+    cff = c.build_cff()
+    tagcheck = c.build_go("./cmd/tagcheck", "tagcheck", tags="")
+    tool = c.build_go("./cmd/gendiff", "gendiff", tags="")
+    # (a) build constraints: every expression TLC enumerated, all spellings, real cff, truth tables
+    if not c.quick:
+        c.tlc("BuildTag", "CONSTANTS MaxLeaves = 4  DUMP = FALSE\nSPECIFICATION Spec\nINVARIANTS FlipCorrect NoDoubleNegation\nCHECK_DEADLOCK FALSE\n",
+              "buildtag4", workers=16, timeout=3000)
+    path, n = bt_exprs(c, 3)
+    if c.quick:
+        # all expressions with <= 2 leaves and a seeded third of the 3-leaf ones
+        rng = random.Random(c.seed)
+        lines = open(path).read().splitlines()
+        keep = [l for l in lines if l.count("&&") + l.split("\t")[0].count("||") <= 1 or rng.random() < 0.34]
+        path = os.path.join(c.scratch, "exprs-quick.tsv")
+        open(path, "w").write("\n".join(keep) + "\n")
+        n = len(keep)
+    troot = os.path.join(c.scratch, "vtag")
+    os.makedirs(troot)
+    c.run([tagcheck, "gen", "-in", path, "-out", troot], 600)
+    open(os.path.join(troot, "go.mod"), "w").write("module vtag\n\ngo 1.19\n\nrequire go.uber.org/cff v0.1.0\n\nreplace go.uber.org/cff => /repo\n")
+    shutil.copy("/repo/internal/tests/go.sum", os.path.join(troot, "go.sum"))
+    for g in sorted(os.listdir(troot)):
+        if not re.match(r"g[01][01]$", g):
+            continue
+        tags = (["-tags", "a"] if g[1] == "1" else []) + (["-tags", "b"] if g[2] == "1" else [])
+        r = subprocess.run([cff, "-quiet"] + tags + ["vtag/" + g], cwd=troot, env=GOENV, capture_output=True, text=True, timeout=1800)
+        if r.returncode != 0:
+            c.inconclusive.append("cff failed on the build-tag corpus %s: %s" % (g, (r.stdout + r.stderr)[-400:]))
+    r = c.run([tagcheck, "verify", "-in", path, "-dir", troot], 900)
+    res = json.loads(r.stdout)
+    c.cov["traces_validated_against_impl"] += res["checked"]
+    c.cov["evaluations"] += res["checked"]
+    c.cov["samples"].append(dict(build_constraint_expressions=open(path).read().splitlines()[200:204], files_checked=res["checked"]))
+    for v in res["violations"][:20]:
+        c.violation("C16", "build constraint: %s: %s [source %s ; generated %s]" % (v["file"], v["what"], v["src"], v["gen"]),
+                    dict(kind="buildtag", src=v["src"], gen=v["gen"], what=v["what"]))
+    # (b) text preservation and (c) output paths, on rendered corpora with surrounding code
+    root, pk, jobs = G.make_corpus(c, 100 if c.quick else 400, 60 if c.quick else 300, 0, seed_off=200)
+    # a test file and a file with a dot in its name exercise the naming rule
+    for pkg in pk:
+        fs = G.src_files(root, pkg)
+        if len(fs) >= 3:
+            d = os.path.join(root, pkg)
+            os.rename(os.path.join(d, fs[1]), os.path.join(d, fs[1][:-3] + ".v2.go"))
+    before = G.snapshot(root)
+    for mode in ("base", "source-map"):
+        problems = G.generate(c, cff, root, pk, mode)
+        if problems:
+            c.inconclusive.append("cff failed on the rendered corpus: " + problems[0][2][-300:])
+            continue
+        after = G.snapshot(root)
+        expected_new = set()
+        for pkg in pk:
+            for f in G.src_files(root, pkg):
+                expected_new.add(os.path.join(pkg, G.gen_name(f)))
+        for pth, hsh in after.items():
+            if pth not in before and pth not in expected_new:
+                c.violation("C16", "cff wrote an undocumented path: %s (%s)" % (pth, mode), dict(kind="paths", path=pth, mode=mode))
+            if pth in before and before[pth] != hsh and pth not in expected_new:
+                c.violation("C16", "cff modified a file that is not its output: %s (%s)" % (pth, mode), dict(kind="paths", path=pth, mode=mode))
+        for pth in expected_new:
+            if pth not in after:
+                c.violation("C16", "documented output path missing: %s (%s)" % (pth, mode), dict(kind="paths", path=pth, mode=mode))
+        for pkg in pk:
+            for f in G.gendiff(c, tool, root, pkg):
+                if f["prop"] == "C16":
+                    c.violation("C16", "%s: %s (%s)" % (f["src"], f["what"], mode), dict(kind="textdiff", file=f["src"], mode=mode))
+                elif f["prop"] == "HARNESS":
+                    c.inconclusive.append(f["what"])
+        c.cov["evaluations"] += sum(len(v) for v in pk.values())
+    # -file=IN=OUT writes exactly OUT
+    pkg = next(iter(pk))
+    f0 = G.src_files(root, pkg)[0]
+    alt = os.path.join(root, pkg, "custom_out.go")
+    snap1 = G.snapshot(root)
+    r = subprocess.run([cff, "-quiet", "-file=%s=%s" % (f0, alt), "vgen/" + pkg], cwd=root, env=GOENV, capture_output=True, text=True, timeout=300)
+    snap2 = G.snapshot(root)
+    changed = sorted(p for p in snap2 if snap1.get(p) != snap2[p])
+    if r.returncode != 0:
+        c.inconclusive.append("cff -file=IN=OUT failed: " + (r.stdout + r.stderr)[-300:])
+    elif changed != [os.path.join(pkg, "custom_out.go")]:
+        c.violation("C16", "-file=IN=OUT changed %s instead of exactly the given output path" % changed, dict(kind="paths", changed=changed))
+    c.assumptions += ["truth tables are computed with go/build/constraint over the tags {cff,a,b}"]
+    return c.finish("model_checking", "spec: TLC checks FlipCorrect for every constraint expression with <=3 (thorough: <=4) leaves; impl: every "
+                    "enumerated expression mentioning cff is rendered as //go:build, as // +build lines and as both, processed by the real "
+                    "cff, and the generated header compared (8 assignments each) with the source's and with Flip(e) of the spec; plus AST "
+                    "diff source/output with directive calls masked and directory snapshots")
+
+
+def c17(c):
+    """Determinism: repeated runs, fresh processes, file alone vs whole package, both modes."""
+    cff = c.build_cff()
+    n = 0
+    for r in range(1 if c.quick else 3):
+        root, pk, jobs = G.make_corpus(c, 100 if c.quick else 300, 60 if c.quick else 200, 0, seed_off=300 + r)
+        for mode in ("base", "source-map"):
+            ref = None
+            for rep in range(3):
+                problems = G.generate(c, cff, root, pk, mode)
+                if problems:
+                    c.inconclusive.append("cff failed: " + problems[0][2][-300:])
+                    break
+                snap = {p: h for p, h in G.snapshot(root).items() if p.endswith("_gen.go")}
+                if ref is None:
+                    ref = snap
+                elif snap != ref:
+                    diff = sorted(p for p in snap if ref.get(p) != snap[p])
+                    c.violation("C17", "repeated generation (%s, run %d) produced different bytes for %s" % (mode, rep + 1, diff[:5]),
+                                dict(kind="determinism", mode=mode, files=diff[:20], seed_off=300 + r))
+            if ref is None:
+                continue
+            # each file alone, written to a side path, must equal the whole-package output
+            for pkg in pk:
+                files = G.src_files(root, pkg)
+                rng = random.Random(c.seed + r)
+                pick = files if not c.quick else rng.sample(files, min(len(files), 12))
+                for f in pick:
+                    alt = os.path.join(c.scratch, "alone_gen.go")
+                    if os.path.exists(alt):
+                        os.remove(alt)
+                    rr = subprocess.run([cff, "-quiet"] + (["-genmode", mode] if mode != "base" else []) +
+                                        ["-file=%s=%s" % (f, alt), "vgen/" + pkg],
+                                        cwd=root, env=GOENV, capture_output=True, text=True, timeout=300)
+                    if rr.returncode != 0 or not os.path.exists(alt):
+                        c.inconclusive.append("cff -file failed on %s: %s" % (f, (rr.stdout + rr.stderr)[-300:]))
+                        continue
+                    a = open(alt, "rb").read()
+                    b = open(os.path.join(root, pkg, G.gen_name(f)), "rb").read()
+                    n += 1
+                    # the only legitimate difference: source-map line directives name the output file
+                    if mode == "source-map":
+                        a = a.replace(b"alone_gen.go", G.gen_name(f).encode())
+                    if a != b:
+                        c.violation("C17", "output for %s differs when the file is processed alone (-file) vs with its package (%s)" % (f, mode),
+                                    dict(kind="determinism-file", file=f, mode=mode, seed_off=300 + r))
+            c.cov["evaluations"] += sum(len(v) for v in pk.values()) * 3
+        if len(c.cov["samples"]) < 2:
+            c.cov["samples"].append(dict(package_files={k: G.src_files(root, k)[:5] for k in pk}))
+    c.cov["distinct_nontrivial"] = n + c.cov["evaluations"]
+    return c.finish("exploration", GRULE + "; each package generated 3 times in fresh processes per mode and every (sampled) file once more "
+                    "alone with -file=IN=OUT; byte comparison; non-trivial = every comparison", distinct_nontrivial=n + c.cov["evaluations"])
+
+
+REGISTRY.update({"C13": c13, "C16": c16, "C17": c17})
